@@ -174,6 +174,8 @@ INSERTS = {
         b"\x00\x04abcd" + b"\x00\x00")),
     "NewSessionTicket12": (22, wire.hs_msg(4, b"\x00\x00\x0e\x10\x00\x04abcd")),
     "ccs": (20, b"\x01"),
+    # RFC 8446 5: a *protected* change_cipher_spec record must be refused
+    "ccs_protected": (20, b"\x01"),
     "EmptyCertificate": (22, wire.hs_msg(11, b"\x00\x00\x00")),
     "EmptyCertificate13": (22, wire.hs_msg(11, b"\x00\x00\x00\x00")),
     "CertificateRequest12": (22, wire.hs_msg(
@@ -194,6 +196,7 @@ TOKNAME = {"CertificateRequest10": "CertificateRequest",
            "EmptyCertificate": "Certificate(empty)",
            "EmptyCertificate13": "Certificate(empty)",
            "appdata": "app", "appdata_empty": "app", "heartbeat": "hb",
+           "ccs_protected": "ccs(protected)",
            "Finished12": "Finished(bad)",
            "Finished32": "Finished(bad)"}
 
@@ -301,7 +304,14 @@ class Rewriter(object):
                 touched = True
             elif k == "insert" and d[1] == i:
                 ct, b = INSERTS[d[2]]
-                out = [adv.Raw(ct, b, TOKNAME.get(d[2]))] + out
+                m = adv.Raw(ct, b, TOKNAME.get(d[2]))
+                if d[2] == "ccs_protected":
+                    rl = self.dev.conn._recordLayer
+                    if not (rl._is_tls13_plus() and rl._writeState and
+                            rl._writeState.encContext):
+                        continue      # nothing to protect it with yet
+                    m.force_inner = 20
+                out = [m] + out
                 touched = True
             elif k == "insert_quiet" and d[1] == i:
                 if d[2] == "OwnHello":
@@ -682,6 +692,10 @@ def run_case(ctx, cid, P):
         ctx.violation(dict(key, clause="data_before_completion"), W,
                       "application data delivered without a handshake")
     ctx.cell("cell", "%s|%s|%s|%s" % (sc.name, vrole, dclass, verdict))
+    for x in devs:
+        if x[0] in ("insert_quiet",) or (x[0] == "insert" and
+                                         x[2] == "ccs_protected"):
+            ctx.count("delivered:%s:%s" % (x[0], x[2]))
     if len(ctx.samples) < 5:
         ctx.sample({"case": cid, "victim": vrole, "scenario": sc.name,
                     "deviation": dclass, "received": W["emitted"],
@@ -702,6 +716,12 @@ def finalize(m, tier):
         out.append("fewer than 300 out-of-language sequences delivered")
     if not m["cells"].get("alert"):
         out.append("no deviation was answered with an alert")
+    if c.get("delivered:insert:ccs_protected", 0) < 5:
+        out.append("fewer than 5 protected ChangeCipherSpec records "
+                   "delivered")
+    if c.get("delivered:insert_quiet:OwnHello", 0) < 5:
+        out.append("fewer than 5 repeated hellos delivered outside the "
+                   "deviant's transcript")
     if c.get("second_call_refused", 0) == 0:
         out.append("second handshake call never exercised")
     return out
